@@ -128,7 +128,7 @@ def run(ctx):
                         "all %d runs judged by the property on the implementation's observation" % (len(small), len(rows)))
     if not quick:
         ctx.harness_race_run("c08", ["-out", "race.jsonl", "-seed", ctx.seed + 5, "-n", 40, "-cancel", 150, "-maxreq", 1500], "in the engine under load")
-    if ctx.broken and not ctx.findings and os.path.exists(os.path.join(verif.ROOT, "harness", "bin", "c08")):
+    if ctx.broken and not ctx.findings and os.path.exists(os.path.join(verif.HBIN, "c08")):
         for gmp, n in (("1", 60), ("2", 60), ("16", 120)):
             for o in run_harness(ctx, n, ctx.seed + 100 + int(gmp), name="search_g%s.jsonl" % gmp, env={"GOMAXPROCS": gmp}):
                 why = spec_on_impl(o)
